@@ -80,6 +80,7 @@ class Module:
         self.globals: Dict[str, ast.expr] = {}     # NAME = expr (last simple assignment)
         self.imports: Dict[str, Tuple[str, Optional[str]]] = {}  # local -> (module, name)
         self.global_ann: Dict[str, str] = {}
+        self.sd_impls: Dict[str, list] = {}        # singledispatch function -> [(type names, implementation)]
 
     def rel(self):
         return os.path.relpath(self.path, repo_root())
@@ -150,6 +151,30 @@ class Program:
         elif isinstance(st, (ast.FunctionDef,)):
             if "overload" in _decorator_names(st):
                 return
+            # functools.singledispatch: `@f.register` / `@f.register(T)` implementations
+            for d in st.decorator_list:
+                tgt = d.func if isinstance(d, ast.Call) else d
+                if isinstance(tgt, ast.Attribute) and tgt.attr == "register" and isinstance(tgt.value, ast.Name) \
+                        and tgt.value.id in m.functions:
+                    types = []
+                    if isinstance(d, ast.Call) and d.args:
+                        types = [ast.unparse(a).split(".")[-1] for a in d.args]
+                    elif st.args.args and st.args.args[0].annotation is not None:
+                        ann = st.args.args[0].annotation
+                        parts = ann.elts if isinstance(ann, ast.Tuple) else [ann]
+                        if isinstance(ann, ast.BinOp):     # X | Y
+                            parts = []
+                            stack = [ann]
+                            while stack:
+                                x = stack.pop()
+                                if isinstance(x, ast.BinOp):
+                                    stack += [x.left, x.right]
+                                else:
+                                    parts.append(x)
+                        types = [ast.unparse(a).strip("'\"").split(".")[-1] for a in parts]
+                    impl = FuncInfo(f"{tgt.value.id}.register[{','.join(types)}]", m, None, st, "function")
+                    m.sd_impls.setdefault(tgt.value.id, []).append((types, impl))
+                    return
             m.functions[st.name] = FuncInfo(st.name, m, None, st, "function")
         elif isinstance(st, ast.Assign):
             for t in st.targets:
@@ -242,7 +267,7 @@ class Program:
                 if "overload" in decs:
                     continue
                 kind = "method"
-                if "property" in decs:
+                if "property" in decs or "cached_property" in decs:
                     kind = "property"
                 elif "staticmethod" in decs:
                     kind = "static"
